@@ -5,6 +5,7 @@ go 1.26.4
 require (
 	github.com/google/uuid v1.6.0
 	github.com/klauspost/reedsolomon v1.12.4
+	github.com/sethvargo/go-retry v0.3.0
 	github.com/sharedcode/sop v0.0.0
 	github.com/sharedcode/sop/adapters/redis v0.0.0
 	github.com/sharedcode/sop/ai v0.0.0
@@ -26,7 +27,6 @@ require (
 	github.com/klauspost/cpuid/v2 v2.3.0 // indirect
 	github.com/ncw/directio v1.0.5 // indirect
 	github.com/redis/go-redis/v9 v9.8.0 // indirect
-	github.com/sethvargo/go-retry v0.3.0 // indirect
 	github.com/sharedcode/sop/adapters/cassandra v0.0.0-00010101000000-000000000000 // indirect
 	github.com/sharedcode/sop/incfs v0.0.0-00010101000000-000000000000 // indirect
 	github.com/stoewer/go-strcase v1.2.0 // indirect
